@@ -52,7 +52,8 @@ HierObs == LET AF == AncF(parents) IN
    anc |-> AF,
    dmin |-> [t \in Tags |-> DescMin(parents, t)],
    dmax |-> [t \in Tags |-> DescMax(parents, t)],
-   isa |-> [x \in DV |-> {y \in DV : x # y /\ IsaF(AF, x, y)}]]
+   isa |-> [x \in DV |-> {y \in DV : x # y /\ IsaF(AF, x, y)}],
+   u |-> [vecs |-> VecElems, bases |-> Bases, dflt |-> Dflt, tags |-> Tags, classes |-> Classes]]
 HierChanged == path = <<>> \/ path[Len(path)].a \in {"derive", "underive"}
 
 Node == LET AF == AncF(parents) IN
